@@ -23,7 +23,7 @@ ArgVariants(sig) ==
        {c}
   \cup {SubSeq(c, 1, n) : n \in 0..Len(c)}                          \* too few (ok iff the rest has defaults)
   \cup {Append(c, "Int")}                                            \* too many
-  \cup {Replace(c, j, t) : j \in 1..Len(c), t \in Tys}               \* each argument at every other type (and subtypes)
+  \cup {Replace(c, j, t) : j \in 1..Len(c), t \in Tys \cup {"Pair"}}   \* each argument at every other type (and subtypes), and a tuple
 
 ParamsOf(sig) == [j \in 1..Len(sig) |-> Param("p" \o ToString(j), sig[j].ty, IF sig[j].d THEN Lit(sig[j].ty) ELSE Absent)]
 CArgsOf(sig)  == [j \in 1..Len(sig) |-> CArg("p" \o ToString(j), TRUE, TRUE, sig[j].ty, IF sig[j].d THEN Lit(sig[j].ty) ELSE Absent)]
